@@ -35,12 +35,19 @@ Proof.
   rewrite (H x (or_introl eq_refl)). rewrite IH by (intros a Ha; apply H; right; exact Ha). reflexivity.
 Qed.
 
-Lemma enc_additions_ext (g h : member_of ty -> result (list Z)) adds :
+Lemma enc_addition_ext (g h : member_of ty -> result (option (list Z))) ms :
+  (forall m, In m ms -> g m = h m) -> enc_addition g ms = enc_addition h ms.
+Proof.
+  induction ms as [|m ms IH]; intros H; cbn [enc_addition]; [reflexivity|].
+  rewrite (H m (or_introl eq_refl)). rewrite IH by (intros m' Hm'; apply H; right; exact Hm'). reflexivity.
+Qed.
+
+Lemma enc_additions_ext (g h : member_of ty -> result (option (list Z))) adds :
   (forall m, In m (concat (map snd adds)) -> g m = h m) -> enc_additions g adds = enc_additions h adds.
 Proof.
   induction adds as [|a adds IH]; intros H; cbn [enc_additions]; [reflexivity|].
   cbn [map concat] in H.
-  rewrite (mapM_ext_in g h (snd a)) by (intros m Hm; apply H; apply in_or_app; left; exact Hm).
+  rewrite (enc_addition_ext g h (snd a)) by (intros m Hm; apply H; apply in_or_app; left; exact Hm).
   rewrite IH by (intros m Hm; apply H; apply in_or_app; right; exact Hm). reflexivity.
 Qed.
 
@@ -63,15 +70,18 @@ Proof.
     rewrite forallb_forall in Hp.
     destruct v; try reflexivity.
     unfold compiled_root. cbn [andb bind].
+    assert (Hmo : forall m, In m (root ++ flat_additions ext) ->
+                            enc_member_opt e f (fun t' v' => enc false numeric e f None t' v') fields m =
+                            enc_member_opt e f (fun t' v' => enc true numeric e f None t' v') fields m).
+    { intros m Hin. unfold enc_member_opt. destruct (lookup (m_name m) fields) as [v0|]; [|reflexivity].
+      rewrite (IH None (m_ty m) v0 (Hp m Hin)). reflexivity. }
     assert (Hm : forall m, In m (root ++ flat_additions ext) ->
                            enc_member e f (fun t' v' => enc false numeric e f None t' v') fields m =
                            enc_member e f (fun t' v' => enc true numeric e f None t' v') fields m).
-    { intros m Hin. unfold enc_member. destruct (lookup (m_name m) fields) as [v0|]; [|reflexivity].
-      destruct (m_opt m) as [| |d]; try (apply IH; apply Hp; exact Hin).
-      destruct (is_default e f (m_ty m) v0 d) as [[|]|]; cbn [bind]; try reflexivity. apply IH. apply Hp. exact Hin. }
+    { intros m Hin. unfold enc_member. rewrite (Hmo m Hin). reflexivity. }
     rewrite (mapM_ext_in _ _ root (fun m Hin => Hm m (in_or_app _ _ _ (or_introl Hin)))).
     destruct ext as [adds|]; [|reflexivity].
-    rewrite (enc_additions_ext _ _ adds (fun m Hin => Hm m (in_or_app _ _ _ (or_intror Hin)))). reflexivity.
+    rewrite (enc_additions_ext _ _ adds (fun m Hin => Hmo m (in_or_app _ _ _ (or_intror Hin)))). reflexivity.
   - (* TSeqOf *)
     apply andb_prop in Hp. destruct Hp as [Hs Hp]. destruct isset; [discriminate|].
     destruct v; try reflexivity.
